@@ -207,7 +207,7 @@ func genCV(typ string) spec.CommonValidations {
 		case 3:
 			cv.MultipleOf = ptrF(2)
 		case 4:
-			cv.Enum = []interface{}{verifPickFloat(1, 3)}
+			cv.Enum = []interface{}{verifPickFloat(1, 3), 1.5} // a fractional member: matches no integer-kind value
 		}
 	case "string":
 		switch verifChoose(5) {
@@ -545,6 +545,9 @@ func HarnessC16Formats() {
 		p.Type, p.Format = "number", "float"
 		x := verifFloat64()
 		verifAssume(x == x)
+		verifAssume(verifAnd(-1.7976931348623157e308 <= x, x <= 1.7976931348623157e308)) // the statement is silent on infinities
+		// don't-care band: finite values above MaxFloat32 that still round to it (up to 2^128 - 2^103)
+		verifAssume(verifNot(verifOr(verifAnd(3.4028234663852886e38 < x, x <= 3.4028235677973366e38), verifAnd(-3.4028235677973366e38 <= x, x < -3.4028234663852886e38))))
 		v, want = x, verifAnd(-3.4028234663852886e38 <= x, x <= 3.4028234663852886e38)
 	}
 	res := NewParamValidator(p, nil).Validate(v)
